@@ -47,6 +47,11 @@ def _unwrap_check_and_cast(method):
 
         def _check_x(x):
             x = arraylike_to_array(x)
+            if not jnp.issubdtype(x.dtype, jnp.inexact):
+                # Integer (or bool) inputs are points like any other: without this,
+                # in-place updates (e.g. x.at[idxs].set(y)) and scan carries would
+                # silently truncate the transformed values to the input's dtype.
+                x = x.astype(float)
             if x.shape != bijection.shape:
                 raise ValueError(
                     f"Expected input shape {bijection.shape}; got {x.shape}"
